@@ -213,8 +213,8 @@ type c09Universe struct {
 
 var c09Universes = []c09Universe{
 	{"text", []string{"a", "ab", "abc", "b", "bc"}, []string{"bc", "c", "1"}, ""},
-	{"int", []string{"a", "a1", "b", "b1"}, []string{"1", "2", "12"}, "int"},
-	{"float", []string{"a", "a1", "b", "b1"}, []string{"0.5", "1.5", "11.5"}, "float"},
+	{"int", []string{"a", "a1", "b", "b1"}, []string{"1", "2", "12", "-3"}, "int"},
+	{"float", []string{"a", "a1", "b", "b1"}, []string{"0.5", "0.75", "2.5", "-0.5"}, "float"},
 }
 
 func c09Stores(u c09Universe, maxPairs int) [][]store.Pair {
@@ -322,11 +322,18 @@ func (c09) RunUnit(t core.Tier, u int, r *core.Reporter) {
 	un := c09Units(t)[u]
 	uni := c09Universes[un.uni]
 	aggrs := c09AggrItems()
-	stores := c09Stores(uni, 4)
+	maxPairs := 4
 	cfgs := []struct {
 		mode string
 		b    int
 	}{{drv.Row, 32}, {drv.Batch, 1}, {drv.Batch, 2}, {drv.Batch, 32}}
+	if t == core.Quick && len(un.groups) >= 2 {
+		// quick tier: two grouping expressions on stores of <= 3 pairs, two configurations
+		maxPairs = 3
+		cfgs = cfgs[:3:3]
+		cfgs = append(cfgs[:1], cfgs[2])
+	}
+	stores := c09Stores(uni, maxPairs)
 	for ai, a := range aggrs {
 		if a.dom != "" && a.dom != uni.dom {
 			continue
